@@ -1053,6 +1053,20 @@ def segment_cases():
             out.append(synth('-l', 'ph_numeric|c=%d|row=%d' % (cls, i), r'c18000', elf_model(cls, cls == 64, m, [text_sec()], segs, e_type=2, e_entry=big)))
         # no sections / no segments
         out.append(synth('-l', 'ph_none|c=%d' % cls, r'c18000', elf_model(cls, True, m, [text_sec()], [], e_type=1)))
+        # section-to-segment mapping at the edges of a segment: empty sections at the start, at the end of the file extent (with and without
+        # a memory-only tail) and at the end of the memory extent
+        for gi, (memsz_extra, bss) in enumerate(((0x20, True), (0, False), (0x20, False))):
+            secs = [text_sec(), sec('.c18first', SHT_PROGBITS, 3, addr=0xc18000, data=b''),
+                    sec('.c18data', SHT_PROGBITS, 3, addr=0xc18000, data=bytes(range(16))),
+                    sec('.c18empty', SHT_PROGBITS, 3, addr=0xc18010, data=b'')]
+            if bss:
+                secs.append(sec('.c18bss', SHT_NOBITS, 3, addr=0xc18010, data=b'', size_override=0x20))
+            secs.append(sec('.c18last', SHT_PROGBITS, 3, addr=0xc18010 + memsz_extra, data=b''))
+            segs = [{'p_type': PT_LOAD, 'p_flags': 5, 'p_offset': ['sec_off', 1, 0], 'p_vaddr': 0x1000, 'p_paddr': 0x1000,
+                     'p_filesz': ['sec_size', 1, 0], 'p_memsz': ['sec_size', 1, 0], 'p_align': 0x1000},
+                    {'p_type': PT_LOAD, 'p_flags': 6, 'p_offset': ['sec_off', 3, 0], 'p_vaddr': 0xc18000, 'p_paddr': 0xc18000,
+                     'p_filesz': 16, 'p_memsz': 16 + memsz_extra, 'p_align': 1}]
+            out.append(synth('-l', 'mapping|edge-sections|c=%d|geometry=%d' % (cls, gi), r'c18', elf_model(cls, True, m, secs, segs, e_type=2, e_entry=0x1000)))
     return out
 
 
@@ -1674,6 +1688,19 @@ def cfa_cases():
                 for opt in ('--debug-dump=frames', '--debug-dump=frames-interp'):
                     out.append(synth(opt, 'dw_cfa|m=%s|%s(0x%x)' % (mname, nm, code) if code == 0x2d else 'dw_cfa|%s(0x%x)' % (nm, code),
                                      {'after': r'\bfde\b'}, model))
+        # every ordered pair of location-changing instructions (the running location printed after "to" is carried state), then two rules
+        if mname != 'EM_AARCH64':
+            locops = [('set_loc', None), ('advance_loc', b'\x48'), ('advance_loc1', b'\x02\x10'), ('advance_loc2', b'\x03' + (0x110).to_bytes(2, 'little')),
+                      ('advance_loc4', b'\x04' + (0x10000).to_bytes(4, 'little'))]
+            for n1, b1 in locops:
+                for n2, b2 in locops:
+                    first = b1 if b1 is not None else b'\x01' + addr(0x401020)
+                    second = b2 if b2 is not None else b'\x01' + addr(0x431000)
+                    body = first + b'\x0e' + U(16) + second + b'\x0e' + U(24) + adv + b'\x0e' + U(32)
+                    secbytes = cfi_section(le, asz, cie_instrs, body, version=1, data_align=da, ra=ra)
+                    model = dw_elf(info, cls=cls, machine=m, extra={'.debug_frame': secbytes})
+                    for opt in ('--debug-dump=frames', '--debug-dump=frames-interp'):
+                        out.append(synth(opt, 'dw_cfa|sequence|%s>%s' % (n1, n2), {'after': r'\bfde\b'}, model))
     return out
 
 
